@@ -496,6 +496,44 @@ Proof.
   - destruct l' as [|a' [|b' t']]; simpl in HL; try discriminate. reflexivity.
 Qed.
 
+(* the empty group: null for every rule, before and after the fix *)
+Lemma grp_nil old rule : grp old rule [] = VNull.
+Proof. destruct old, rule as [[cls d|f]|]; try reflexivity; destruct f; reflexivity. Qed.
+
+(* empty operand: the aggr clause without any grouping identifier yields exactly one datapoint, whose viral value is
+   null; the standalone aggregation (and the clause with a grouping identifier) yields none *)
+Lemma v_group_empty old rules d by_ clause :
+  d_rows d = [] ->
+  d_rows (v_group old rules d by_ clause) =
+  match filter (fun n => mem_s n by_) (d_ids d), clause with
+  | [], true => [([], if has_v d then [VNull] else [])]
+  | _, _ => []
+  end.
+Proof.
+  intros H. unfold v_group, group_keys. cbn [d_rows]. rewrite H.
+  destruct (filter (fun n => mem_s n by_) (d_ids d)), clause; cbn [map filter vvals nubk]; try reflexivity.
+  rewrite grp_nil. reflexivity.
+Qed.
+
+(* the two forms agree on every non-empty operand *)
+Lemma group_keys_nonempty d by_ clause : d_rows d <> [] ->
+  group_keys d by_ clause = nubk (map (gproj d by_) (d_rows d)).
+Proof.
+  intros H. unfold group_keys. destruct (filter (fun n => mem_s n by_) (d_ids d)) eqn:E, clause; auto.
+  assert (Hk : forall r, gproj d by_ r = []).
+  { intros r. unfold gproj, select_by.
+    assert (G : forall ids k, filter (fun n => mem_s n by_) ids = [] ->
+                map snd (filter (fun p : string * val => mem_s (fst p) by_) (combine ids k)) = []).
+    { induction ids as [|i t IH]; intros k Hf; [reflexivity|]. destruct k as [|v k']; [reflexivity|]. simpl in *.
+      destruct (mem_s i by_); [discriminate|]. apply IH. exact Hf. }
+    apply G. exact E. }
+  destruct (d_rows d) as [|r t]; [congruence|]. clear H. cbn [map nubk]. rewrite Hk. f_equal.
+  induction t as [|r' t' IH]; [reflexivity|]. cbn [map nubk]. rewrite Hk.
+  change (filter (fun x : list val => negb (key_eqb [] x)) ([] :: filter (fun y => negb (key_eqb [] y)) (nubk (map (gproj d by_) t'))))
+    with (filter (fun x : list val => negb (key_eqb [] x)) (filter (fun y => negb (key_eqb [] y)) (nubk (map (gproj d by_) t')))).
+  rewrite <- IH. reflexivity.
+Qed.
+
 (* where the order-safety check passes (and the values are canonical) even the fold before the fix was the specification *)
 Lemma canon_map_id l : Forall canon l -> map vcanon l = l.
 Proof. intros H. induction H; simpl; auto. rewrite H, IHForall. reflexivity. Qed.
